@@ -128,8 +128,29 @@ type smtSession struct {
 	rd  *bufio.Reader
 }
 
+// startSession tries the solvers in turn until one of them reproduces the model.
 func startSession(script string, timeoutMs int) (*smtSession, string, error) {
-	cmd := exec.Command("z3-new", "-in", "-smt2", fmt.Sprintf("-t:%d", timeoutMs))
+	var last string
+	var lastErr error
+	for _, argv := range [][]string{
+		{"z3-new", "-in", "-smt2", fmt.Sprintf("-t:%d", timeoutMs)},
+		{"z3", "-in", "-smt2", fmt.Sprintf("-t:%d", timeoutMs)},
+		{"cvc5", "--incremental", "--strings-exp", "--produce-models", fmt.Sprintf("--tlimit-per=%d", timeoutMs), "--lang=smt2"},
+	} {
+		s, st, err := startSessionWith(argv, script, timeoutMs)
+		if err == nil && st == "sat" {
+			return s, st, nil
+		}
+		if s != nil {
+			s.close()
+		}
+		last, lastErr = st, err
+	}
+	return nil, last, lastErr
+}
+
+func startSessionWith(argv []string, script string, timeoutMs int) (*smtSession, string, error) {
+	cmd := exec.Command(argv[0], argv[1:]...)
 	in, err := cmd.StdinPipe()
 	if err != nil {
 		return nil, "", err
@@ -231,6 +252,7 @@ type rbuilder struct {
 	why     string
 	budget  int
 	shorter []string // constraints to add for another attempt
+	choices []string // dynamic types the model chose for interface values (to ask for a different model)
 }
 
 func (b *rbuilder) fail(f string, a ...interface{}) string {
@@ -536,7 +558,21 @@ func (b *rbuilder) val(t types.Type, term string, depth int) string {
 			}
 		}
 		if dyn == nil {
+			// ask for a model in which this interface value is nil or has a dynamic type the module defines
+			alts := []string{fmt.Sprintf("(= %s %s)", term, nilIface)}
+			for name, ty := range b.g.d.tagTypes {
+				if types.AssignableTo(ty, t) {
+					alts = append(alts, fmt.Sprintf("(= (i_tag %s) %s)", term, name))
+				}
+			}
+			sort.Strings(alts)
+			b.shorter = append(b.shorter, "(assert (or "+strings.Join(alts, " ")+"))")
 			return b.fail("the model uses a dynamic type the module does not define (tag %s)", tag)
+		}
+		for name, n := range b.g.d.tags {
+			if strconv.Itoa(n) == tag {
+				b.choices = append(b.choices, fmt.Sprintf("(= (i_tag %s) %s)", term, name))
+			}
 		}
 		// the payload as the code reads it: the unboxing accessor of the dynamic type's sort applied to the box
 		// (the model may use another box constructor, on which that accessor is still a total function)
@@ -730,6 +766,12 @@ func (b *rbuilder) obsModel(t Term) string {
 
 // replayOnRealCode tries to confirm a counterexample on the real code; everything it does is appended to the replay file.
 func replayOnRealCode(w *World, fo *funcOutcome, key, agg string, a *aggStatus, path string) (confirmed bool) {
+	return replayWith(w, fo, key, agg, a, path, nil, 0)
+}
+
+// replayWith: blocks are extra assertions excluding models already tried (a model whose dynamic types led to a run that
+// relies on an abstraction is excluded and another one is asked for, at most twice).
+func replayWith(w *World, fo *funcOutcome, key, agg string, a *aggStatus, path string, blocks []string, depth int) (confirmed bool) {
 	logf, _ := os.OpenFile(path, os.O_APPEND|os.O_WRONLY, 0o644)
 	if logf == nil {
 		return false
@@ -788,6 +830,7 @@ func replayOnRealCode(w *World, fo *funcOutcome, key, agg string, a *aggStatus, 
 			extra = append(extra, "(assert (or "+strings.Join(alts, " ")+"))")
 		}
 	}
+	extra = append(extra, blocks...)
 	if i := strings.LastIndex(script, "(check-sat)"); i >= 0 && len(extra) > 0 {
 		script = script[:i] + strings.Join(extra, "\n") + "\n" + script[i:]
 	}
@@ -816,7 +859,7 @@ func replayOnRealCode(w *World, fo *funcOutcome, key, agg string, a *aggStatus, 
 		if b.why == "" {
 			break
 		}
-		if len(b.shorter) > 0 && attempt < 4 {
+		if len(b.shorter) > 0 && attempt < 8 {
 			// the model is needlessly large: constrain it and ask again
 			s.close()
 			if i := strings.LastIndex(script, "(check-sat)"); i >= 0 {
@@ -957,6 +1000,11 @@ func replayOnRealCode(w *World, fo *funcOutcome, key, agg string, a *aggStatus, 
 		return true
 	}
 	say("not confirmed: the real code behaves differently from the model (the model relies on an abstraction of a callee or of arithmetic)")
+	if depth < 2 && len(b.choices) > 0 {
+		say("asking the solver for a model with other dynamic types ...")
+		s.close()
+		return replayWith(w, fo, key, agg, a, path, append(blocks, "(assert (not (and "+strings.Join(b.choices, " ")+")))"), depth+1)
+	}
 	return false
 }
 
